@@ -229,20 +229,11 @@ func run(c *hlib.Ctx) *hlib.Run {
 		ref := map[int]*observation{}
 		// results of a separately built instance in a separate, fresh process
 		var fresh []classifier.Results
-		var requery func(i int) bool
+		var plain []classifier.Results
 		if c.Args["noref"] == "" {
 			rb, _ := json.Marshal(req)
-			// the reference process runs the UNINSTRUMENTED library when the
-			// runner built one: real runtime, real (random) map iteration order
-			refBin, refKind := os.Args[0], "instrumented build, sorted map order"
-			if pb := c.Args["plainbin"]; pb != "" {
-				if _, err := os.Stat(pb); err == nil {
-					refBin, refKind = pb, "uninstrumented build, the runtime's own map order"
-					out.Counters["reference_process_uninstrumented"]++
-				}
-			}
-			query := func() []classifier.Results {
-				ans, err := hlib.CallReferenceBin(refBin, c.Args, c.Tier, rb)
+			query := func(bin string) []classifier.Results {
+				ans, err := hlib.CallReferenceBin(bin, c.Args, c.Tier, rb)
 				if err != nil {
 					panic("reference process failed: " + err.Error())
 				}
@@ -252,20 +243,21 @@ func run(c *hlib.Ctx) *hlib.Run {
 				}
 				return r
 			}
-			fresh = query()
-			requery = func(i int) (differ bool) {
-				// ask two more fresh processes: do separate processes agree among themselves?
-				for k := 0; k < 2; k++ {
-					if v2kit.FirstDiff(fresh[i], query()[i]) != "" {
-						return true
-					}
-				}
-				return false
-			}
+			fresh = query(os.Args[0])
 			for i := range fresh {
-				ref[i] = &observation{fresh[i], fmt.Sprintf("Match(input %d %q) on a canonically built instance in a fresh process (%s; no history, no tracing)", i, inputs[i].Desc, refKind)}
+				ref[i] = &observation{fresh[i], fmt.Sprintf("Match(input %d %q) on a canonically built instance in a fresh process (no history, no tracing)", i, inputs[i].Desc)}
 			}
 			out.Counters["reference_process_results"] += int64(nin)
+			// A third process runs the UNINSTRUMENTED library (real runtime, the
+			// runtime's own random map order). It is compared with the reference
+			// at the end of the run; what it shows is not a function of the choice
+			// vector, hence "flaky".
+			if pb := c.Args["plainbin"]; pb != "" {
+				if _, err := os.Stat(pb); err == nil {
+					plain = query(pb)
+					out.Counters["uninstrumented_process_results"] += int64(nin)
+				}
+			}
 		}
 
 		// ---- history -------------------------------------------------------
@@ -322,9 +314,6 @@ func run(c *hlib.Ctx) *hlib.Run {
 						what := d
 						if v2kit.SameMultiset(r0.res, res) {
 							what = "order-only"
-						}
-						if requery != nil && fresh != nil && ii < len(fresh) && r0.res.TotalInputLines == fresh[ii].TotalInputLines && requery(ii) {
-							what += "(fresh processes disagree among themselves)"
 						}
 						viol = &hlib.Violation{Oracle: "same-input-same-results", Class: "nondeterministic-results:" + what,
 							Message: fmt.Sprintf("the same bytes gave different Results (first difference: %s)\n  first:  %s\n          %s\n  later:  %s\n          %s", d, r0.desc, v2kit.Pretty(r0.res), desc, v2kit.Pretty(res))}
@@ -385,6 +374,14 @@ func run(c *hlib.Ctx) *hlib.Run {
 				traceOn = "?"
 				out.Counters["op_switch_instance"]++
 				tr("op %d: switch to instance %s", op, insts[cur].name)
+			}
+		}
+		for i := range plain {
+			if viol == nil && fresh != nil {
+				if d := v2kit.FirstDiff(fresh[i], plain[i]); d != "" {
+					viol = &hlib.Violation{Oracle: "separate-processes-agree", Class: "differs-in-uninstrumented-process", Flaky: true,
+						Message: fmt.Sprintf("two fresh processes that build the same corpus and call Match once on the same bytes (input %d %q) disagree (first difference: %s); one runs the instrumented library with sorted map order, the other the unmodified library with the runtime's own map order\n  instrumented:   %s\n  uninstrumented: %s", i, inputs[i].Desc, d, v2kit.Pretty(fresh[i]), v2kit.Pretty(plain[i]))}
+				}
 			}
 		}
 		for _, r := range retained {
@@ -458,7 +455,7 @@ func main() {
 				"real_code":   []string{"v2 classifier package, re-compiled from the tree under test after source instrumentation (map-range seam only)", "go-diff, go-spew: unmodified"},
 				"simulated":   []string{"iteration order of every map ranged over in package classifier (seeded permutation per range statement execution)", "io.Reader for MatchFrom operations"},
 				"unmodelled":  simrt.Unmodelled(),
-				"processes":   "every run executes in a fresh child process; the reference results come from a second fresh process, built from the UNINSTRUMENTED tree (real runtime map order), that builds the corpus canonically and only calls Match",
+				"processes":   "every run executes in a fresh child process; the reference results come from a second fresh process, that builds the corpus canonically and only calls Match; a third fresh process does the same with the UNINSTRUMENTED library (the runtime's own map order) and must agree with it",
 				"model":       "reference = Results of the fresh reference process (else the first Results observed for (world, input bytes); every later observation on any instance, at any point of the history, under any map permutation and trace configuration must be bit-identical)",
 				"not_checked": "that results are right (C01-C03), trace text",
 			}
